@@ -309,8 +309,6 @@ def nontrivial(case, impl_lines):
 def classify(case, detail, impl_lines):
     if 'crash' in detail or 'missing' in detail:
         return 'crash'
-    if 'class=stale-notified-users' in detail:
-        return 'stale-notified-users'
     if 'class=nomore-reset' in detail:
         return 'nomore-reset'
     return 'delivery-rule'
